@@ -213,6 +213,31 @@ def eval_compiled(case):
                         if not any(fl["key"] == f"compiled:{name}" for fl in fails):
                             fails.append({"key": f"compiled:{name}", "what": f"compiled model {name} = {got[name]!r}, kinematics give "
                                           f"{float(val)!r} at ori={ori} cori={cori} f={f} bias={b} gyro={w} g={g} dt={dt} (cse={case['cse']})"})
+            # the same compiled model fed from single-precision buffers (State.from_data / Control.from_data on float32 arrays whose
+            # values use the whole 24-bit mantissa): the model is still evaluated in double precision, on exactly those values
+            if not fails:
+                import numpy as np
+                for oi, ori in enumerate(QUATS[4:7] + QUATS[-1:]):
+                    f32 = lambda seq, k_: tuple(F(float(np.float32(float(x_) * 1.0009765625 + 0.0123 * (i_ + 1 + k_)))) for i_, x_ in enumerate(seq))
+                    ori32, f_, w_ = f32(ori, 0), f32(FBW[5][0], 1), f32(FBW[5][2], 2)
+                    p32, v32 = f32((F(1, 2), F(-3, 4), F(5, 8)), 3), f32((F(-1, 4), F(3, 2), F(7, 8)), 4)
+                    dt = DTS[oi % 2]
+                    exp = expected_by_name(reference(ori32, cori, list(f_), [F(x) for x in b], list(w_), g, dt, p32, v32))
+                    env = env_of(ori32, cori, f_, b, w_, g, dt, p32, v32, rates0=(5, -7, 11), a0=(13, -17, 19))
+                    st_names, ct_names = pyimpl.names_of(mdl.State), pyimpl.names_of(mdl.Control)
+                    try:
+                        out = mdl.model(float(dt), mdl.State.from_data(np.array([[float(env[s_])] for s_ in st_names], dtype=np.float32)),
+                                        mdl.Control.from_data(np.array([[float(env[c_])] for c_ in ct_names], dtype=np.float32)))
+                    except Exception as e:
+                        fails.append({"key": f"model-raises:{type(e).__name__}:float32", "what": f"compiled strapdown model raised {e!r} on float32 buffers"[:300]})
+                        break
+                    got = pyimpl.vec_by_name(out)
+                    for name, val in exp.items():
+                        n += 1
+                        if not pyimpl.close(got[name], float(val), 1e-9, abs(float(val))):
+                            if not any(fl["key"] == f"compiled-float32:{name}" for fl in fails):
+                                fails.append({"key": f"compiled-float32:{name}", "what": f"compiled model fed from float32 buffers: {name} = {got[name]!r}, kinematics "
+                                              f"on the same values give {float(val)!r} (relative error {abs(got[name] - float(val)) / max(abs(float(val)), 1e-300):.2e}; cse={case['cse']})"})
     return {"n": n, "fails": fails, "sigs": [f"compiled:{case['cse']}:{i}" for i in range(n // 16)],
             "outcomes": ["compiled-evaluated"], "sample": {"kind": "compiled", "cse": case["cse"], "points": n // 16}}
 
